@@ -126,6 +126,12 @@ const NASTY: &[&str] = &[
     "'`'",
 ];
 
+/// Variable names that are not plain identifiers (none contains `;`, `=`, `{`, `}` or `|`, which the
+/// snapshot format uses as separators).
+const NASTY_NAMES: &[&str] = &[
+    "-v", "+x", "-a b", "-r*", "+a b", "-", "--", "+", "a b", "$w", "w*", "~v", "w'q", "w\"q", "#v", "é v", "l1\nl2", "-'", "+$x", "w\\u", "-é", "`v`", "[v]", "?",
+];
+
 #[derive(Clone, Debug)]
 struct Def {
     text: String,
@@ -187,6 +193,23 @@ fn defs() -> Vec<Def> {
     for f in ["\\if() { p kw; }", "\\done() { p kw2; }", "\"a b\"() { p sp; }", "'f*'() { p st; }", "f\\$x() { p dl; }"] {
         v.push(Def { text: f.to_string(), kind: "func" });
     }
+    // variables whose *names* need care: a leading hyphen or plus sign (read as options unless the
+    // listing puts `--` first), blanks, quotes, pattern and expansion characters, non-ASCII, a
+    // newline — alone and combined ("whatever characters the names and values contain"). Such
+    // variables come from the environment or from `typeset -- 'name=value'`.
+    for (i, n) in NASTY_NAMES.iter().enumerate() {
+        let val = NASTY[(i * 7) % NASTY.len()].replace(';', ":");
+        v.push(Def { text: format!("typeset -- {}", sq(&format!("{n}={val}"))), kind: "nvar" });
+        match i % 3 {
+            0 => v.push(Def { text: format!("export -- {}", sq(&format!("{n}={val}"))), kind: "nexport" }),
+            1 => v.push(Def { text: format!("readonly -- {}", sq(&format!("{n}={val}"))), kind: "nreadonly" }),
+            _ => v.push(Def { text: format!("typeset -x -- {}", sq(n)), kind: "nexport" }),
+        }
+    }
+    // functions named with a leading hyphen / plus sign, with and without an attribute to list
+    for f in ["\\-fn() { p h; }", "+fn() { p pl; }", "\\-fr() { p h; }; readonly -f -- -fr", "+fr() { p pl; }; readonly -f -- +fr"] {
+        v.push(Def { text: f.to_string(), kind: "func" });
+    }
     for o in ["allexport", "noclobber", "noglob", "nounset", "pipefail", "errexit"] {
         v.push(Def { text: format!("set -o {o}"), kind: "option" });
     }
@@ -238,6 +261,15 @@ fn readonly(s: &str) -> Vec<String> {
     // readonly -p lists the read-only variables: name, value and the read-only attribute
     user_vars(s).into_iter().filter(|e| e.ends_with(" ro")).map(|e| e.replace(" x ro", " ro")).collect()
 }
+fn nasty_named(s: &str) -> Vec<String> {
+    entries(s).into_iter().filter(|e| NASTY_NAMES.iter().any(|n| e.strip_prefix(n).is_some_and(|r| r.starts_with('=')))).collect()
+}
+fn nasty_exported(s: &str) -> Vec<String> {
+    nasty_named(s).into_iter().filter(|e| e.ends_with(" x") || e.ends_with(" x ro")).map(|e| e.trim_end_matches(" ro").to_string()).collect()
+}
+fn nasty_readonly(s: &str) -> Vec<String> {
+    nasty_named(s).into_iter().filter(|e| e.ends_with(" ro")).map(|e| e.replace(" x ro", " ro")).collect()
+}
 fn values_only(s: &str) -> Vec<String> {
     user_vars(s).into_iter().map(|e| e.trim_end_matches(" ro").trim_end_matches(" x").to_string()).collect()
 }
@@ -268,6 +300,15 @@ fn printers(kind: &str) -> Vec<Printer> {
         "readonly" => vec![
             Printer { cmd: "readonly -p", prefix: "", section: "vars", filter: readonly },
             Printer { cmd: "typeset -p", prefix: "", section: "vars", filter: user_vars },
+        ],
+        "nvar" => vec![Printer { cmd: "typeset -p", prefix: "", section: "vars", filter: nasty_named }],
+        "nexport" => vec![
+            Printer { cmd: "export -p", prefix: "", section: "vars", filter: nasty_exported },
+            Printer { cmd: "typeset -p", prefix: "", section: "vars", filter: nasty_named },
+        ],
+        "nreadonly" => vec![
+            Printer { cmd: "readonly -p", prefix: "", section: "vars", filter: nasty_readonly },
+            Printer { cmd: "typeset -p", prefix: "", section: "vars", filter: nasty_named },
         ],
         "func" => vec![Printer { cmd: "typeset -fp", prefix: "", section: "funcs", filter: entries }],
         "option" => vec![Printer { cmd: "set +o", prefix: "", section: "options", filter: whole }],
